@@ -285,7 +285,11 @@ class Resolver:
         if func.name == '_create_from_bitstype' and func.cls in FAMILY:
             # `return auto` under isinstance(auto, cls): the result may be of any subclass of cls
             r = self.family(ctx or func.cls)
-        if func.node.returns is None or not r:
+        wide = len([t for t in r if t in FAMILY]) > 1 and func.node.returns is not None and \
+            ast.unparse(func.node.returns).strip("'") in FAMILY
+        if func.node.returns is None or not r or wide:
+            # (an annotation naming a family class is only an upper bound: prefer what the returns really build)
+            ann = r
             self._in_progress.add(k)
             try:
                 fa = self.analyse(func, ctx)
@@ -293,6 +297,8 @@ class Resolver:
                 for _, t in fa.returns:
                     out |= t
                 r = frozenset(out)
+                if wide and (not r or not r <= ann):
+                    r = ann
             finally:
                 self._in_progress.discard(k)
         self._ret_memo[k] = r
